@@ -270,12 +270,26 @@ SHAPE_KEEPING_FNS = (
 ) + tuple(set(SHAPE_KEEPING_OK + SHAPE_KEEPING_ERR))
 
 
+# combinator -> (variant of the receiver for which the closure runs, result keeps the variant)
+CLOSURE_ON_VARIANT = {
+    'std::result::Result::<T, E>::map_err': ('err', True),
+    'std::result::Result::<T, E>::map': ('ok', True),
+    'std::result::Result::<T, E>::inspect_err': ('err', True),
+    'std::option::Option::<T>::map': ('some', True),
+    'std::option::Option::<T>::ok_or_else': ('none', False),
+    'std::option::Option::<T>::unwrap_or_else': ('none', False),
+    'std::result::Result::<T, E>::unwrap_or_else': ('err', False),
+}
+
+
 def is_identity_call(t):
     return t.get('fn') in IDENTITY_FNS
 
 
 def is_tag_identity_call(t):
-    return t.get('fn') in TAG_IDENTITY_FNS
+    fn = t.get('fn') or ''
+    return fn in TAG_IDENTITY_FNS or fn.endswith(('slice::<impl [T]>::iter', 'slice::<impl [T]>::iter_mut', 'Vec::<T, A>::as_slice',
+                                                  'iter::Iterator::by_ref', 'iter::Iterator::rev'))
 
 
 # --------------------------------------------------------------------------- tags
@@ -301,6 +315,12 @@ def tag_of_place(pl, tags):
         if e['k'] == 'downcast':
             continue
         if e['k'] == 'field':
+            if cur.startswith('tupn(') and cur.endswith(')'):
+                parts = cur[5:-1].split(';')
+                cur = parts[e['i']] if e['i'] < len(parts) else ''
+                if cur == '':
+                    return None
+                continue
             # unwrap one constructor layer: ok(X) -> X ; cont(X) -> X ; some(X) -> X
             if '(' in cur and cur.endswith(')') and (e['i'] == 0 or cur.startswith('tup(')):
                 cur = cur[cur.index('(') + 1:-1]
@@ -601,6 +621,11 @@ class Interp:
                 tt = self.f.types[o['t']]
                 if tt.get('p') == 'bool':
                     new = 'T' if o['v'] != '0' else 'F'
+        elif k == 'agg' and rv.get('ak') == 'tuple' and len(rv['ops']) >= 2:
+            # a tuple of values whose tags are known (constants chosen per branch and carried together)
+            parts = [tag_of_operand(o, tags) or '' for o in rv['ops']]
+            if any(parts) and not any(';' in x or '(' in x for x in parts):
+                new = 'tupn(%s)' % ';'.join(parts)
         elif k == 'agg' and rv.get('ak') == 'adt':
             p = rv.get('p')
             vn = rv.get('vn')
@@ -855,6 +880,21 @@ class Interp:
             tg = tag_of_operand(t['args'][0], tags)
             res = d.on_leaf_call(self, fr, tok, tags, bi, t, fn)
             return finish([(x, tg if tag is None else tag) for (x, tag) in res])
+        if fn in CLOSURE_ON_VARIANT and len(t['args']) == 2:
+            # a combinator that runs its closure for one variant of the receiver (`res.map_err(|e| { ..; e })?`): the
+            # effects of the closure happen on that variant only
+            run_on, keeps = CLOSURE_ON_VARIANT[fn]
+            h = head(tag_of_operand(t['args'][0], tags))
+            cb_ = self._closure_body(fr.body, t['args'][1])
+            if cb_ is not None and h in ('ok', 'err', 'some', 'none'):
+                keep = {'none': 'none', 'some': 'some()', 'ok': 'ok()', 'err': 'err'}[h] if keeps else None
+                if h == run_on:
+                    t2 = dict(t)
+                    t2['args'] = [t['args'][1]]
+                    outs_ = self.enter(fr, bi, tok, tags, t2, cb_, (), [t['args'][1]])
+                    return finish([(x, keep) for (x, _tg) in outs_])
+                # the closure does not run: the receiver passes through unchanged
+                return finish([(tok, tag_of_operand(t['args'][0], tags) if keeps else None)])
         if fn in SHAPE_KEEPING_FNS and t['args']:
             # Option/Result combinators that keep the variant: None stays None, Some(..) stays Some(..)
             h = head(tag_of_operand(t['args'][0], tags))
@@ -928,6 +968,15 @@ class Interp:
                                 self._site_body[id(t)] = cb
             self._csc[k] = c
         return c
+
+    def _closure_body(self, body, operand):
+        if operand['k'] not in ('copy', 'move') or operand['pl']['p']:
+            return None
+        ty = self.f.types[body.locals[operand['pl']['l']]]
+        if ty.get('k') == 'ref':
+            ty = self.f.types[ty['t']]
+        cp = ty.get('p') if ty.get('k') == 'closure' else None
+        return self.f.body(cp) if cp else None
 
     def _result_predicate(self, body, operand):
         """'is_err' / 'is_ok' when the closure operand only tests its argument with Result::is_err / is_ok"""
